@@ -80,7 +80,7 @@ def register_lexer(reg):
     C = 'lex_state.line_ctr'
     WIN = ['0 <= %s.text.start' % S, '%s.text.start <= %s.char_pos' % (S, C), '%s.char_pos <= %s.text.end' % (C, S),
            '%s.text.end <= len(%s)' % (S, TXT)]
-    reg.contract('lark.lexer:BasicLexer.next_token', serves=['C06', 'C07', 'C08', 'C15'], kind='method',
+    reg.contract('lark.lexer:BasicLexer.next_token', serves=['C06', 'C07', 'C08', 'C15', 'C10'], kind='method',
                  params={'self': 'BasicLexer', 'lex_state': 'LexerState', 'parser_state': 'any'}, returns='Token',
                  requires=textmodel.INV(C, TXT) + WIN,
                  modifies=['self', 'lex_state', 'lex_state.line_ctr'],
